@@ -139,6 +139,31 @@ def table_sites(rng, th):
     return progs
 
 
+def sub_sites(rng, th):
+    """the same limits when the structure is serialised on its own (not through a table's add operation)"""
+    subs = []
+    pre_pptt = [{"op": "add_cache", "a": {}, "calls": []}]
+    for k in [58, 59, 60, 100]:
+        subs.append({"fam": "sub", "st": "proc", "a": {"parent": 0, "id": [1, 0, 0, 0]}, "calls": [{"o": "add_cache", "a": {"ref": 1}}] * k,
+                     "kind": "PPTT", "pre": pre_pptt, "every_prefix": False})
+    for n in [255, 256, 300]:
+        subs.append({"fam": "sub", "st": "cxims", "a": {"gran": "Granularity4kb"}, "calls": [{"o": "add_xormap", "a": {"v": [1] * 8}}] * n, "every_prefix": False})
+    wire = {"num": [1, 0, 0, 0], "level": True, "high": False, "aplic": [2, 0]}
+    for n in [8187, 8188, 8300]:
+        subs.append({"fam": "sub", "st": "iommu", "a": {"id": [1, 0], "wires": [wire] * n}, "calls": [], "every_prefix": False})
+    pre_rimt = [{"op": "add_iommu", "a": {"id": [1, 0]}, "calls": []}]
+    mp = {"src": [1, 0, 0, 0], "dst": [2, 0, 0, 0], "n": [3, 0, 0, 0], "iommu": 1, "ats": True, "pri": False, "rciep": False}
+    for n in [3275, 3276, 3400]:
+        subs.append({"fam": "sub", "st": "rc", "a": {"id": [2, 0], "seg": [0, 0], "ats": False, "pri": False, "maps": [mp] * n}, "calls": [],
+                     "kind": "RIMT", "pre": pre_rimt, "every_prefix": False})
+    for n in [65522, 65523, 65600]:
+        subs.append({"fam": "sub", "st": "plat", "a": {"id": [2, 0], "name": [65] * n}, "calls": [], "every_prefix": False})
+    msci = {"pxm": [1, 0, 0, 0], "size": [0] * 8, "total": "Two", "this": "One", "assoc": "Complex", "policy": "Writeback", "line": [64, 0]}
+    for n in [65535, 65536]:
+        subs.append({"fam": "sub", "st": "msci", "a": msci, "calls": [{"o": "add_smbios_handle", "a": {"v": [1, 0]}}] * n, "every_prefix": False})
+    return subs
+
+
 def run(ctx):
     rng = vlib.Rng(ctx.seed)
     th = ctx.thorough()
@@ -155,6 +180,9 @@ def run(ctx):
         for profile in ("release", "checked"):
             futs.append(ex.submit(ac.judge, ctx, a, "c18a-" + profile, 2, 3600, profile))
             futs.append(ex.submit(vlib.run_and_judge, ctx, t, "Trace_Tables.cfg", "Trace_Tables.tla", "c18t-" + profile, 6, profile, 3600))
+        subs = sub_sites(rng, th)
+        for profile in ("release", "checked"):
+            futs.append(ex.submit(vlib.run_and_judge, ctx, subs, "Trace_Sub.cfg", "Trace_Sub.tla", "c18s-" + profile, 4, profile, 3600))
         for f in futs:
             f.result()
     ctx.extra["builds"] = ["release (no overflow checks)", "checked (debug-assertions + overflow-checks)"]
